@@ -456,6 +456,7 @@ type FuncContract struct {
 	Inline    bool // force inlining
 	NoBounds  bool
 	NoFrame   bool
+	SpecPkg   string // package in whose scope the clauses are resolved (extern contracts)
 	Pure      bool
 	File      string
 	Opaque    bool
@@ -499,7 +500,7 @@ type Contracts struct {
 	Assume []string // textual list of assumed contracts for evidence
 }
 
-var kwRe = regexp.MustCompile(`^(func|iface|requires|ensures|modifies|loop|pred|pure|ghostset|ghost|trusted|inline|props|nobounds|noframe|free|mode|opaque)\b`)
+var kwRe = regexp.MustCompile(`^(func|iface|extern|requires|ensures|modifies|loop|pred|pure|ghostset|ghost|trusted|inline|props|nobounds|noframe|free|mode|opaque)\b`)
 
 func loadContracts(root string, pkgDirs map[string]string) (*Contracts, error) {
 	cs := &Contracts{Funcs: map[string]*FuncContract{}, Pures: map[string]*PureFunc{}}
@@ -567,6 +568,22 @@ func (cs *Contracts) parseFile(pkgPath, fn, data string) error {
 			rest = strings.TrimSpace(rest[len(kw):])
 		}
 		switch kw {
+		case "extern":
+			// extern <pkgpath> (recv Type) Method  — assumed contract of a method of an external package
+			fs := strings.SplitN(rest, " ", 2)
+			if len(fs) != 2 {
+				return fmt.Errorf("%s: bad extern %s", fn, ln)
+			}
+			sig, props := splitProps(fs[1])
+			key := canonFuncKey(sig)
+			cur = &FuncContract{Key: key, Pkg: fs[0], Props: props, LoopInv: map[int][]*Clause{}, LoopMod: map[int][]*Clause{}, File: fn, Unroll: map[int]int{}, Trusted: true, SpecPkg: pkgPath}
+			if strings.HasPrefix(sig, "(") {
+				if rf := strings.Fields(sig[1:strings.Index(sig, ")")]); len(rf) == 2 {
+					cur.recvName = rf[0]
+				}
+			}
+			cur.TrustNote = "external package " + fs[0]
+			cs.Funcs[fs[0]+"::"+key] = cur
 		case "func", "iface":
 			sig, props := splitProps(rest)
 			key := canonFuncKey(sig)
